@@ -4,41 +4,165 @@ from fractions import Fraction as Fr
 from ..nf import Rat, C
 from ..source import Unsupported, AnchorError
 from ..xlate import Interp, Obj, ListV, DictV, Raised
-from .common import same, show, opaque_obj
+from .common import same, show, opaque_obj, atoms_of
 
 REFS = 'pmutt.empirical.references.References'
 
 
-def ref_species(I, name, comp, Tref):
+OTHER = {'elements': 'groups', 'groups': 'elements'}
+
+
+def ref_species(I, name, comp, Tref, dname='elements'):
+    """a reference species: experimental enthalpy, opaque model, the composition ``comp`` under the descriptor the
+    references are described by and an unrelated composition under the other one"""
     D = I.D
     model = opaque_obj(I, name + '.model', {'get_HoRT': ('T',)})
     o = Obj(name, attrs={'name': name, 'T_ref': Tref, 'HoRT_ref': D.sym(name + '.HoRT_exp'), 'model': model,
-                         'elements': DictV({k: D.sym('%s.n%s' % (name, k)) for k in comp})})
+                         dname: DictV({k: D.sym('%s.n%s' % (name, k)) for k in comp}),
+                         OTHER[dname]: DictV({k: D.sym('%s.other%s' % (name, k)) for k in ('X', 'B')})})
     return o
 
 
-def get_first(I, r):
-    """first reference species of a References object (through its public sequence protocol)"""
-    try:
-        return I.call_method(r, '__getitem__', [C(0)], {})
-    except Unsupported:
-        return None
+def solver_model(I):
+    """np.linalg.lstsq as an uninterpreted solver.  Every call returns fresh symbols (off<call>_<column>), so that the
+    solution of an earlier fit cannot pass for the current one.  The model stands for 'the least-squares solution of
+    the system it is given' only when no singular value of a well-conditioned system is cut off: rcond absent, None
+    or -1 (machine precision) or a tiny number."""
+    sols = {'calls': 0}
+
+    def lstsq(I_, fr, args, kwargs, nd):
+        if len(args) < 2 or set(kwargs) - {'rcond'}:
+            raise Unsupported('np.linalg.lstsq called with %d positional arguments and %s' % (len(args), sorted(kwargs)), nd)
+        M, y = args[0], args[1]
+        rcond = args[2] if len(args) > 2 else kwargs.get('rcond')
+        if len(args) > 3:
+            raise Unsupported('np.linalg.lstsq with more than three arguments', nd)
+        if rcond is not None:
+            if not isinstance(rcond, Rat) or not (rcond.iszero() or rcond.is_const()):
+                raise Unsupported('np.linalg.lstsq with a symbolic rcond', nd)
+            val = Fr(0) if rcond.iszero() else rcond.const_value()
+            if not (val < 0 or val <= Fr(1, 10 ** 10)):
+                sols.setdefault('rcond', []).append((val, nd, fr.module if fr is not None else None))
+        if not isinstance(M, ListV) or not M.items or not isinstance(M.items[0], ListV):
+            raise Unsupported('np.linalg.lstsq: matrix is not a non-empty two-dimensional array', nd)
+        sols['calls'] += 1
+        ncol = len(M.items[0])
+        sol = ListV([I_.D.sym('off%d_%d' % (sols['calls'], j)) for j in range(ncol)])
+        sol.is_array = True
+        sols['M'], sols['y'], sols['x'] = M, y, sol
+        return ListV([sol, C(0), C(0), C(0)])
+    I.native['numpy.linalg.lstsq'] = lstsq
+    return sols
+
+
+def refit(run, repo, ci, I, r, species, sols, dname, label, stage):
+    owner, fn = repo.find_method(ci, 'fit_HoRT_offset')
+    calls = sols['calls']
+    for k in ('M', 'y', 'x'):
+        sols.pop(k, None)
+    res = I.call_method(r, 'fit_HoRT_offset', [], {})
+    if isinstance(res, Raised) or sols['calls'] <= calls or 'x' not in sols:
+        run.fail('PATH.refit', 'References.fit_HoRT_offset', label + stage,
+                 'refitting does not solve the least-squares system again (%s, %d solver calls)'
+                 % (show(res), sols['calls'] - calls), owner.module, fn)
+        return 0
+    return verify_fit(run, repo, ci, I, r, species, sols, dname, label, stage)
+
+
+def verify_fit(run, repo, ci, I, r, species, sols, dname, label, stage):
+    """after a fit of ``r`` to ``species`` (the rule's own list): system handed to the solver, what was stored, and the
+    reproduction of every reference"""
+    owner, fn = repo.find_method(ci, 'fit_HoRT_offset')
+    D = I.D
+    M, y, x = sols['M'], sols['y'], sols['x']
+    names = sorted({k for sp in species for k in sp.attrs[dname].d})
+    n = 0
+    for val, nd, mod in sols.pop('rcond', []):
+        run.fail('REF.solver', 'References.fit_HoRT_offset', label + stage + ' rcond',
+                 'np.linalg.lstsq is told to treat singular values below %s of the largest as zero: a full-rank '
+                 'reference set with a smaller ratio (C4H10/C5H12: 0.007) is solved in a subspace and the experimental '
+                 'enthalpies are not reproduced' % float(val), mod or owner.module, nd if mod is not None else fn)
+    shape_ok = isinstance(M, ListV) and len(M) == len(species) and \
+        all(isinstance(row, ListV) and len(row) == len(names) for row in M.items) and \
+        isinstance(y, ListV) and len(y) == len(species)
+    run.check(shape_ok, 'PATH.refit' if stage else 'DATAFLOW.matrix', 'References.fit_HoRT_offset',
+              label + stage + ' shape',
+              'the system handed to the solver is %s x %s, expected %d reference species x %d descriptors %s'
+              % (len(M) if isinstance(M, ListV) else '?',
+                 len(M.items[0]) if isinstance(M, ListV) and M.items and isinstance(M.items[0], ListV) else '?',
+                 len(species), len(names), names), owner.module, fn)
+    if not shape_ok:
+        return n
+    Ts = [sp.attrs['T_ref'] for sp in species]
+    want_T = Ts[0]
+    if not all(same(t, Ts[0]) for t in Ts):
+        want_T = C(0)
+        for t in Ts:
+            want_T = want_T + t
+        want_T = want_T / C(len(Ts))
+    run.check(same(r.attrs.get('T_ref'), want_T), 'REF.fit', 'References.fit_HoRT_offset', label + stage + ' T_ref',
+              'reference temperature after the fit is %s, expected the common (mean) reference temperature of the '
+              'species %s' % (show(r.attrs.get('T_ref')), show(want_T)), owner.module, fn)
+    off = r.attrs.get('offset')
+    ok_off = isinstance(off, DictV) and sorted(off.d) == names and \
+        all(same(off.d[k], x.items[j]) for j, k in enumerate(names))
+    run.check(ok_off, 'DATAFLOW.offset', 'References.fit_HoRT_offset', label + stage + ' offsets',
+              'the offsets stored after the fit are %s; expected one per descriptor %s of the current reference set, '
+              'equal to the solution of this solve %s in the column order of the descriptor matrix'
+              % (show(off), names, show(x)), owner.module, fn)
+    for i, sp in enumerate(species):
+        # matrix row = composition of the species over the sorted descriptor names (0 when absent)
+        row_ok = all(same(M.items[i].items[j], sp.attrs[dname].d.get(k, C(0))) for j, k in enumerate(names))
+        run.check(row_ok, 'DATAFLOW.matrix', 'References.get_descriptors_matrix', label + stage + ' row%d' % i,
+                  'row %d of the descriptor matrix is %s, not the composition (%s) of %s over %s'
+                  % (i, show(M.items[i]), dname, sp.name, names), owner.module, fn)
+        Ti = sp.attrs['T_ref']
+        dft = sp.attrs['model'].opaque_methods['get_HoRT'](I, sp.attrs['model'], [], {'T': Ti})
+        run.check(same(y.items[i], dft - sp.attrs['HoRT_ref']), 'DATAFLOW.rhs', 'References.fit_HoRT_offset',
+                  label + stage + ' rhs%d' % i, 'right-hand side entry is %s, expected H_dft(T_ref) - H_exp'
+                  % show(y.items[i]), owner.module, fn)
+        n += 2
+        if not same(want_T, Ti):
+            continue        # differing reference temperatures: reproduction only up to T_mean/T_i (not decided)
+        adj = I.call_method(r, 'get_HoRT', [], {'descriptors': sp.attrs[dname], 'T': Ti})
+        resid = y.items[i]
+        for j in range(len(names)):
+            resid = resid - M.items[i].items[j] * x.items[j]
+        got = dft + adj - sp.attrs['HoRT_ref'] if isinstance(adj, Rat) else adj
+        run.check(same(got, resid), 'ALG.reproduces', 'References.fit_HoRT_offset', label + stage + ' species%d' % i,
+                  'adjusted minus experimental enthalpy of reference %d (%s) is %s but the least-squares residual of '
+                  'its row is %s: fit and application disagree' % (i, sp.name, show(got, 160), show(resid, 160)),
+                  owner.module, fn,
+                  sample='H_dft + adjustment - H_exp == (y - M x)[%d]  for %s%s' % (i, label, stage))
+        n += 1
+    return n
 
 
 def check(run, repo):
     run.explanation = (
         'References is interpreted abstractly. get_CvoR/CpoR/UoRT/SoR are 0 and GoRT = HoRT - SoR; get_HoRT with '
         'symbolic offsets and composition is -sum offset[d]*n_d * T_ref/T: homogeneous linear in the composition, '
-        'T*HoRT free of T, descriptors absent from the references only warn. fit_HoRT_offset is interpreted through '
-        'its real code (descriptor matrix, reference temperatures, right-hand side) with np.linalg.lstsq as an '
-        'uninterpreted solver returning symbolic offsets; for every reference species i the adjusted enthalpy at T_ref '
-        'minus the experimental value is identically the least-squares residual of row i (so a uniquely determined '
-        'fit reproduces the experiment, and the residual is the solver\'s), for 2-3 references over 2-3 descriptors '
-        'including a descriptor missing from one species; refitting after appending a reference recomputes offset and '
-        'T_ref.')
-    run.assumptions = ['np.linalg.lstsq returns the least-squares solution of the system it is given (NumPy contract)']
+        'T*HoRT free of T, descriptors absent from the references only warn. Through a species (references described '
+        'by elements or by groups): HoRT/GoRT are shifted by that amount at the temperature the species itself is '
+        'evaluated at (T, or the T of its <name>_kwargs entry), H/G with units by -(sum offset*n)*R*T_ref, S/Cp/Cv '
+        '(dimensionless and with units) not at all, and with use_references=False no offset is left in the value. '
+        'fit_HoRT_offset is interpreted through its real code (descriptor matrix, reference temperatures, right-hand '
+        'side) with np.linalg.lstsq as an uninterpreted solver that returns fresh symbolic offsets on every call and '
+        'accepts no truncation threshold (rcond absent/None/-1/<=1e-10); for every reference species i the adjusted '
+        'enthalpy at T_ref minus the experimental value is identically the least-squares residual of row i (so a '
+        'uniquely determined fit reproduces the experiment, and the residual is the solver\'s), for 2-3 references '
+        'over 2-3 descriptors including a descriptor missing from one species, described by elements or by groups '
+        '(the species carry an unrelated dictionary under the other name). The same is decided again after every step '
+        'of: append a reference with a descriptor new to the set + refit, pop + refit, remove + refit, extend by two '
+        '(one with a new descriptor) + refit - against the rule\'s own list of species: shape of the system, one '
+        'offset per current descriptor equal to the solution of the last solve, T_ref, rows, right-hand side, '
+        'reproduction. Reference temperatures differing by 0.01 K: the fit succeeds, each species is evaluated at '
+        'its own T_ref and T_ref becomes the mean.')
+    run.assumptions = ['np.linalg.lstsq without a truncation threshold returns the least-squares solution of the '
+                       'system it is given (NumPy contract)']
     run.undecided = ['orthogonality of the residual for rank-deficient sets (NumPy contract)',
-                     'numerics of averaging slightly different reference temperatures']
+                     'how closely references with slightly different reference temperatures are reproduced '
+                     '(factor T_mean/T_ref,i)']
     ci = repo.cls(REFS)
     for m_ in ('get_HoRT', 'get_GoRT', 'fit_HoRT_offset', 'get_descriptors', 'get_descriptors_matrix'):
         run.fn(REFS + '.' + m_)
@@ -95,7 +219,8 @@ def check(run, repo):
                 'groups': DictV({'CH3': D2.sym('gA'), 'OH': D2.sym('gB')})}
         off = DictV({k: D2.sym('off_' + k) for k in comp[dname].d})
         refs = Obj('refs', ci, attrs={'offset': off, 'T_ref': Tr2, 'descriptor': dname})
-        modes = {a_: opaque_obj(I2, a_, {'get_HoRT': ('T',), 'get_GoRT': ('T',), 'get_SoR': ('T',)})
+        modes = {a_: opaque_obj(I2, a_, {q_: ('T',) for q_ in ('get_HoRT', 'get_GoRT', 'get_SoR', 'get_CpoR',
+                                                               'get_CvoR')})
                  for a_ in ('trans_model', 'vib_model', 'rot_model', 'elec_model', 'nucl_model')}
         sp = Obj('sp', sci, attrs=dict(modes, name='sp', elements=comp['elements'], groups=comp['groups'],
                                        references=refs, misc_models=None))
@@ -113,34 +238,89 @@ def check(run, repo):
                           dname, q[4:], show(with_refs - without, 160) if ok is False and isinstance(with_refs, Rat)
                           and isinstance(without, Rat) else show(with_refs, 120)), owner2.module, fn2,
                       sample='StatMech.%s with References(descriptor=%r): shift = -(sum offset*n)*T_ref/T' % (q, dname))
+            # the species is given its own temperature the documented way (<name>_kwargs); an entry for another
+            # species is not its business: modes and adjustment are both evaluated at the species' temperature, so the
+            # energy added is still -(sum offset*n)*R*T_ref whatever T is
+            T3, T4 = D2.sym('T_sp'), D2.sym('T_other')
+            kw_ = lambda: {'T': T2, 'sp_kwargs': DictV({'T': T3}), 'other_kwargs': DictV({'T': T4})}
+            with_refs = I2.call_method(sp, q, [], kw_())
+            without = I2.call_method(sp, q, [], dict(kw_(), use_references=False))
+            want_adj = C(0)
+            for k, nk in comp[dname].d.items():
+                want_adj = want_adj - off.d[k] * nk * Tr2 / T3
+            ok = isinstance(with_refs, Rat) and isinstance(without, Rat) and same(with_refs - without, want_adj)
+            run.check(ok, 'REF.apply', 'StatMech.' + q, 'references described by %s, species-specific T' % dname,
+                      'a species evaluated with T=T and %s_kwargs={T: T_sp} shifts %s by %s, expected '
+                      '-(sum offset*n) * T_ref/T_sp (the temperature the species itself is evaluated at)' % (
+                          'sp', q[4:], show(with_refs - without, 160) if isinstance(with_refs, Rat)
+                          and isinstance(without, Rat) else show(with_refs, 120)), owner2.module, fn2,
+                      sample='StatMech.%s(T=T, sp_kwargs={T: T_sp}) with references: shift = -(sum offset*n)*T_ref/T_sp'
+                      % q)
+
+            # the same in energy units: the energy added to H and G is -(sum offset*n)*R*T_ref - free of T - and it is
+            # gone (no offset left in the value) when the references are switched off
+            qu, units = {'get_HoRT': ('get_H', 'J/mol'), 'get_GoRT': ('get_G', 'kcal/mol')}[q]
+            Ru = I2.native['pmutt.constants.R'](I2, None, [units + '/K'], {}, None)
+            with_refs = I2.call_method(sp, qu, [], {'T': T2, 'units': units})
+            without = I2.call_method(sp, qu, [], {'T': T2, 'units': units, 'use_references': False})
+            want_E = C(0)
+            for k, nk in comp[dname].d.items():
+                want_E = want_E - off.d[k] * nk * Tr2 * Ru
+            ok = isinstance(with_refs, Rat) and isinstance(without, Rat) and same(with_refs - without, want_E)
+            o3, f3 = repo.find_method(sci, qu)
+            run.check(ok, 'REF.apply', 'StatMech.' + qu, 'references described by %s' % dname,
+                      'a species with references shifts %s(units=%r) by %s, expected -(sum offset*n)*R*T_ref' % (
+                          qu[4:], units, show(with_refs - without, 160) if isinstance(with_refs, Rat)
+                          and isinstance(without, Rat) else show(with_refs, 120)), o3.module, f3,
+                      sample='StatMech.%s(T, units) with references: shift = -(sum offset*n)*R*T_ref' % qu)
+            left = [str(a_) for a_ in atoms_of(without) if str(a_).startswith('off_')] if isinstance(without, Rat) \
+                else ['?']
+            run.check(not left, 'FWD.switch', 'StatMech.' + qu, 'use_references=False, %s' % dname,
+                      '%s(use_references=False) still depends on the offsets %s: the adjustment is not switched off'
+                      % (qu, left), o3.module, f3)
+        # nothing is added to S and the heat capacities, dimensionless or with units
+        for q, units in (('get_SoR', None), ('get_CpoR', None), ('get_CvoR', None), ('get_S', 'J/mol/K'),
+                         ('get_Cp', 'J/mol/K'), ('get_Cv', 'J/mol/K')):
+            kw_ = {'T': T2}
+            if units:
+                kw_['units'] = units
+            with_refs = I2.call_method(sp, q, [], dict(kw_))
+            without = I2.call_method(sp, q, [], dict(kw_, use_references=False))
+            o3, f3 = repo.find_method(sci, q)
+            ok = isinstance(with_refs, Rat) and isinstance(without, Rat) and same(with_refs, without)
+            run.check(ok, 'IDENT.zero', 'StatMech.' + q, 'references described by %s' % dname,
+                      'references change %s of a species by %s' % (q[4:], show(with_refs - without, 160) if isinstance(
+                          with_refs, Rat) and isinstance(without, Rat) else show(with_refs, 120)), o3.module, f3)
 
     # ---- fitting ---------------------------------------------------------------
     n_fit = 0
-    for comps in ((('A', 'B'), ('A', 'B')), (('A', 'B'), ('B',), ('A', 'B', 'C')), (('A',), ('A', 'B'))):
+    owner, fn = repo.find_method(ci, 'fit_HoRT_offset')
+    fit_cases = [(comps, dname, False)
+                 for dname in ('elements', 'groups')
+                 for comps in ((('A', 'B'), ('A', 'B')), (('A', 'B'), ('B',), ('A', 'B', 'C')), (('A',), ('A', 'B')))]
+    # reference temperatures that differ slightly (298.15 K vs 298.16 K): the fit still succeeds
+    fit_cases.append(((('A', 'B'), ('B',), ('A', 'B')), 'elements', True))
+    for comps, dname, vary_T in fit_cases:
         I = Interp(repo)
         D = I.D
         Tr = D.sym('Tr')
-        sols = {}
-
-        def lstsq(I_, fr, args, kwargs, nd):
-            M, y = args[0], args[1]
-            ncol = len(M.items[0])
-            sol = ListV([I_.D.sym('off%d' % j) for j in range(ncol)])
-            sol.is_array = True
-            sols['M'], sols['y'], sols['x'] = M, y, sol
-            return ListV([sol, C(0), C(0), C(0)])
-        I.native['numpy.linalg.lstsq'] = lstsq
-        species = [ref_species(I, 'ref%d' % i, comp, Tr) for i, comp in enumerate(comps)]
+        sols = solver_model(I)
+        Trefs = [Tr + C(Fr(1, 100)) if vary_T and i == 1 else Tr for i in range(len(comps))]
+        species = [ref_species(I, 'ref%d' % i, comp, Trefs[i], dname) for i, comp in enumerate(comps)]
         r = Obj('refs', ci, closed=True)
-        res = I.call_method(r, '__init__', [], {'references': ListV(list(species))})
-        owner, fn = repo.find_method(ci, 'fit_HoRT_offset')
+        kw_ = {'references': ListV(list(species))}
+        if dname != 'elements':
+            kw_['descriptor'] = dname
+        res = I.call_method(r, '__init__', [], kw_)
         label = 'references:%s' % '|'.join(''.join(c_) for c_ in comps)
+        if dname != 'elements':
+            label += ' described by %s' % dname
+        if vary_T:
+            label += ' T_ref differing by 0.01 K'
         if isinstance(res, Raised) or 'x' not in sols:
             run.fail('REF.fit', 'References.fit_HoRT_offset', label, 'constructing References with reference species '
                      'does not fit the offsets (%s)' % show(res), owner.module, fn)
             continue
-        M, y, x = sols['M'], sols['y'], sols['x']
-        names = sorted({k for c_ in comps for k in c_})
         # descriptor counts are real numbers (fractional formula units, non-stoichiometric oxides, user descriptors):
         # nothing on the way to the solver may store them in an integer-typed buffer
         hz = list(I.dtype_hazards)
@@ -149,83 +329,42 @@ def check(run, repo):
                   'descriptor counts are stored into an array created with an integer element type: fractional '
                   'counts are truncated before the least-squares fit', hm[0] if hm else owner.module,
                   hz[0][0] if hz else fn)
-        run.check(same(r.attrs.get('T_ref'), Tr), 'REF.fit', 'References.fit_HoRT_offset', label + ' T_ref',
-                  'common reference temperature not kept (%s)' % show(r.attrs.get('T_ref')), owner.module, fn)
-        off = r.attrs.get('offset')
-        ok_off = isinstance(off, DictV) and sorted(off.d) == names and \
-            all(same(off.d[k], x.items[j]) for j, k in enumerate(names))
-        run.check(ok_off, 'DATAFLOW.offset', 'References.fit_HoRT_offset', label + ' offsets',
-                  'offsets are not stored per descriptor in the column order of the descriptor matrix: %s' % show(off),
-                  owner.module, fn)
-        for i, sp in enumerate(species):
-            # matrix row = composition of the species over the sorted descriptor names (0 when absent)
-            row_ok = all(same(M.items[i].items[j], sp.attrs['elements'].d.get(k, C(0))) for j, k in enumerate(names))
-            run.check(row_ok, 'DATAFLOW.matrix', 'References.get_descriptors_matrix', label + ' row%d' % i,
-                      'row %d of the descriptor matrix is %s, not the composition of %s over %s'
-                      % (i, show(M.items[i]), sp.name, names), owner.module, fn)
-            dft = sp.attrs['model'].opaque_methods['get_HoRT'](I, sp.attrs['model'], [], {'T': Tr})
-            adj = I.call_method(r, 'get_HoRT', [], {'descriptors': sp.attrs['elements'], 'T': Tr})
-            resid = y.items[i]
-            for j in range(len(names)):
-                resid = resid - M.items[i].items[j] * x.items[j]
-            got = dft + adj - sp.attrs['HoRT_ref']
-            run.check(same(got, resid), 'ALG.reproduces', 'References.fit_HoRT_offset', label + ' species%d' % i,
-                      'adjusted minus experimental enthalpy of reference %d is %s but the least-squares residual of its '
-                      'row is %s: sign/pairing of fit and application disagree' % (i, show(got, 160), show(resid, 160)),
-                      owner.module, fn,
-                      sample='H_dft + adjustment - H_exp == (y - M x)[%d]  for %s' % (i, label))
-            run.check(same(y.items[i], dft - sp.attrs['HoRT_ref']), 'DATAFLOW.rhs', 'References.fit_HoRT_offset',
-                      label + ' rhs%d' % i, 'right-hand side entry is %s, expected H_dft(T_ref) - H_exp'
-                      % show(y.items[i]), owner.module, fn)
-            n_fit += 3
-        # appending a reference and refitting recomputes every derived field
-        extra = ref_species(I, 'refX', ('A', 'B'), Tr)
+        n_fit += verify_fit(run, repo, ci, I, r, species, sols, dname, label, '')
+        if vary_T:
+            continue
+        # A sequence of changes to the reference set, each followed by a refit. The rule keeps its own list of the
+        # species that are in the set; after every refit the system handed to the solver, the stored offsets (the
+        # solution of THIS solve - the solver model numbers its solutions), T_ref and the reproduction of every
+        # reference are decided again against that list.
+        now = list(species)
+        # ... a reference that brings a descriptor the set did not know (D)
+        extra = ref_species(I, 'refX', ('A', 'D'), Tr, dname)
         I.call_method(r, 'append', [], {'obj': extra})
-        old_off = r.attrs.get('offset')
-        sols.clear()
-        I.call_method(r, 'fit_HoRT_offset', [], {})
-        ok = 'M' in sols and len(sols['M']) == len(species) + 1 and r.attrs.get('offset') is not old_off
-        run.check(ok, 'PATH.refit', 'References.fit_HoRT_offset', label + ' append+refit',
-                  'refitting after appending a reference does not rebuild the system with the new species', owner.module, fn)
-        # ... and after removing references again (pop of the last, remove by name): the system shrinks accordingly and
-        # the offsets of the remaining fit are the ones applied
+        now.append(extra)
+        n_fit += refit(run, repo, ci, I, r, now, sols, dname, label, ' append+refit')
+        # ... removing references again (pop of the last takes D away again, remove of the first)
         for how in ('pop', 'remove'):
             if repo.find_method(ci, how, missing_ok=True) is None:
                 continue
-            before = len(sols.get('M', []))
-            sols.clear()
             if how == 'pop':
                 I.call_method(r, 'pop', [], {})
+                now.pop()
             else:
-                first = get_first(I, r)
-                I.call_method(r, 'remove', [], {'obj': first} if first is not None else {})
-            res_ = I.call_method(r, 'fit_HoRT_offset', [], {})
-            ok = not isinstance(res_, Raised) and 'M' in sols and len(sols['M']) == before - 1
-            if ok and 'x' in sols:
-                names_ = I.call_method(r, 'get_descriptors', [], {})
-                off_ = r.attrs.get('offset')
-                ok = isinstance(off_, DictV) and isinstance(names_, ListV) and \
-                    all(same(off_.d.get(I.plain(nm_)), xv_) for nm_, xv_ in zip(names_.items, sols['x'].items))
-            run.check(ok, 'PATH.refit', 'References.fit_HoRT_offset', label + ' %s+refit' % how,
-                      'refitting after %s does not rebuild the system without the removed species (rows %s -> %s) or '
-                      'does not store the new solution as offsets' % (how, before, len(sols.get('M', []))),
-                      owner.module, fn)
-        # ... and after adding several references at once
+                I.call_method(r, 'remove', [], {'obj': now[0]})
+                now.pop(0)
+            n_fit += refit(run, repo, ci, I, r, now, sols, dname, label, ' %s+refit' % how)
+        # ... and adding several references at once (one of them with another new descriptor)
         if repo.find_method(ci, 'extend', missing_ok=True) is not None:
-            before = len(sols.get('M', []))
-            sols.clear()
-            more = [ref_species(I, 'refY', ('A',), Tr), ref_species(I, 'refZ', ('B', 'A'), Tr)]
-            I.call_method(r, 'extend', [], {'seq': ListV(more)})
-            res_ = I.call_method(r, 'fit_HoRT_offset', [], {})
-            ok = not isinstance(res_, Raised) and 'M' in sols and len(sols['M']) == before + 2
-            run.check(ok, 'PATH.refit', 'References.fit_HoRT_offset', label + ' extend+refit',
-                      'refitting after extending by two references does not rebuild the system with them (rows %s -> '
-                      '%s)' % (before, len(sols.get('M', []))), owner.module, fn)
+            more = [ref_species(I, 'refY', ('A',), Tr, dname), ref_species(I, 'refZ', ('B', 'A', 'E'), Tr, dname)]
+            I.call_method(r, 'extend', [], {'seq': ListV(list(more))})
+            now.extend(more)
+            n_fit += refit(run, repo, ci, I, r, now, sols, dname, label, ' extend+refit')
     run.floor('fit instances', n_fit, 18)
     run.extra['fit_instances'] = n_fit
 
 
 F_ = 'pmutt/empirical/references.py'
+S_ = 'pmutt/statmech/__init__.py'
 MUTANTS = [
     {'name': 'offset added instead of subtracted', 'expect': ('', 'References'),
      'edits': [(F_, '                HoRT -= self.offset[descriptor] * coefficient', '                HoRT += self.offset[descriptor] * coefficient')]},
@@ -237,5 +376,37 @@ MUTANTS = [
      'edits': [(F_, '            except KeyError:\n                warn_msg = (\'References does not have offset value for the \'', '            except IndexError:\n                warn_msg = (\'References does not have offset value for the \'')]},
     {'name': 'matrix transposed indices', 'expect': ('', 'References'),
      'edits': [(F_, '                    descriptors_mat[i, j] = getattr(', '                    descriptors_mat[j, i] = getattr(')]},
+]
+MUTANTS += [
+    {'name': 'wb: references evaluated with the raw keyword arguments, not the species\' own', 'expect': ('REF.apply', 'StatMech'),
+     'edits': [(S_, '            ref_kwargs = copy(specie_kwargs)', '            ref_kwargs = copy(kwargs)')]},
+    {'name': 'wb: descriptor tuple cached and never invalidated', 'expect': ('', 'fit_HoRT_offset'),
+     'edits': [(F_, '        self.T_ref = T_ref\n        # If offset not specified but references is specified',
+                '        self.T_ref = T_ref\n        self._descriptors = None\n        # If offset not specified but references is specified'),
+               (F_, '        unique_descriptors = []\n        for reference in self.references:',
+                '        if self._descriptors is not None:\n            return self._descriptors\n'
+                '        unique_descriptors = []\n        for reference in self.references:'),
+               (F_, '        return tuple(sorted(unique_descriptors))',
+                '        self._descriptors = tuple(sorted(unique_descriptors))\n        return self._descriptors')]},
+    {'name': 'wb: matrix always read from elements', 'expect': ('DATAFLOW.matrix', 'get_descriptors_matrix'),
+     'edits': [(F_, '                        getattr(reference,\n                                self.descriptor)[descriptor_name]',
+                '                        reference.elements[descriptor_name]')]},
+    {'name': 'wb: lstsq with a truncation threshold', 'expect': ('REF.solver', 'fit_HoRT_offset'),
+     'edits': [(F_, 'np.linalg.lstsq(descriptors_mat, ref_offset, rcond=None)[0]',
+                'np.linalg.lstsq(descriptors_mat, ref_offset, rcond=1.e-2)[0]')]},
+    {'name': 'wb: refit keeps the offsets it already had', 'expect': ('DATAFLOW.offset', 'fit_HoRT_offset'),
+     'edits': [(F_, '        self.offset = {\n            descriptor: val\n            for descriptor, val in zip(descriptors, offset)\n        }',
+                '        fitted = {\n            descriptor: val\n            for descriptor, val in zip(descriptors, offset)\n        }\n'
+                '        self.offset = fitted if self.offset is None else {**fitted, **self.offset}')]},
+    {'name': 'wb: differing reference temperatures refused', 'expect': ('', 'fit_HoRT_offset'),
+     'edits': [(F_, '            warn(warn_msg)\n        self.T_ref = np.mean(T_refs)',
+                '            raise ValueError(warn_msg)\n        self.T_ref = np.mean(T_refs)')]},
+    {'name': 'wb: T_ref of the first reference instead of the mean', 'expect': ('REF.fit', 'fit_HoRT_offset'),
+     'edits': [(F_, '        self.T_ref = np.mean(T_refs)', '        self.T_ref = T_refs[0]')]},
+    {'name': 'wb: get_H does not hand on use_references', 'expect': ('', 'StatMech.get_H'),
+     'edits': [(S_, '                             T=T,\n                             use_references=use_references,\n                             **kwargs) * T * R_adj',
+                '                             T=T,\n                             **kwargs) * T * R_adj')]},
+    {'name': 'wb: references add to the entropy of a species', 'expect': ('IDENT.zero', ''),
+     'edits': [(F_, '    def get_SoR(self):\n        return 0.', '    def get_SoR(self):\n        return 1.')]},
 ]
 EQUIV = []
